@@ -10,6 +10,13 @@ from vlib import hexs, unhexs
 FOREIGN = ["..", ",", ":", "=", "==", "=~", "#", "_", "*", ".", "|", "x", "5", '"s"', "(", ")", "[", "]", "{", "}", "..=", "<", ">=", "!", "move", "await", "0.1", "::", "~"]
 
 
+# literal tokens of every lexical class rustc has (the parser takes several of them apart: `.0.1` after a dot is ONE float
+# literal; suffixes, exponents, empty fractions, radix prefixes and the non-numeric literal kinds all reach the same code)
+LITERALS = ["0.", "1.", "0.1", "1.0", "0.1e3", "1e3", "1E-2", "0.0", "1.5f32", "2f64", "7u8", "0usize", "1_0", "0x1F", "0b1", "0o7",
+            "00", "01.10", "4294967296", "18446744073709551616", "340282366920938463463374607431768211456", "'c'", "b'a'", 'b"s"',
+            'r"s"', 'r#"s"#', 'c"s"', '"s"', '""', "true"]
+
+
 def tokenize(ck, texts):
     outs = ck.rt_batch(["toks " + hexs(t) for t in texts], binary="inproc", harness="inproc")
     res = []
@@ -48,6 +55,11 @@ def mutations(rng, toks, max_per_kind):
             res.append(("swap", toks[:i] + [toks[i + 1], toks[i]] + toks[i + 2:]))
         f = rng.choice(FOREIGN)
         res.append(("insert", toks[:i] + [(f, False)] + toks[i:]))
+    # literal-class substitution: every literal token, and every token after a `.`, replaced by literals of other lexical classes
+    spots = [i for i in idx if re.match(r"[0-9\"']|b['\"]|r[#\"]", toks[i][0]) or (i > 0 and toks[i - 1][0] == ".")]
+    for i in (spots if len(spots) <= max_per_kind else rng.sample(spots, max_per_kind)):
+        for lit in rng.sample(LITERALS, 4):
+            res.append(("literal", toks[:i] + [(lit, toks[i][1])] + toks[i + 1:]))
     return res
 
 
